@@ -349,13 +349,11 @@ func (p *parser) concat(depth int) *Node {
 					lit = p.src[p.pos : p.pos+end]
 					p.pos += end + 2
 				}
-				if p.fold {
-					// lex does not fold quoted text; nothing says whether (?i) reaches into \Q..\E.
-					p.unspec("quote-under-fold")
-				}
+				// quoted text is literal text: under (?i) / caseInsensitive it folds like any other
+				// literal ("generate a case-insensitive scanner", grammar.Options.CaseInsensitive)
 				var subs []*Node
 				for _, r := range lit {
-					subs = append(subs, p.unit(r, false))
+					subs = append(subs, p.unit(r, p.fold))
 				}
 				n := &Node{Kind: Cat, Sub: subs}
 				p.addAtom(start, "quote", n)
